@@ -465,11 +465,21 @@ class MailboxData(MailboxDataInterface[Message]):
                 key = rec.key
                 info = keys.get(key)
                 if info is None:
-                    uidl.remove(rec.uid)
-                else:
-                    filename = key + ':' + info
-                    new_rec = Record(rec.uid, rec.fields, filename)
-                    uidl.set(new_rec)
+                    # not in the listing: look for this one file again
+                    # before its record is dropped. The listing reads cur/
+                    # and then new/; another session's SELECT moves files
+                    # from new/ to cur/ without this lock and can slip a
+                    # live message past both reads
+                    try:
+                        async with self.messages_lock.read_lock():
+                            info = self._maildir.get_message_metadata(
+                                key).get_info()
+                    except (KeyError, FileNotFoundError):
+                        uidl.remove(rec.uid)
+                        continue
+                filename = key + ':' + info
+                new_rec = Record(rec.uid, rec.fields, filename)
+                uidl.set(new_rec)
 
     async def messages(self) -> AsyncIterable[Message]:
         async with UidList.with_read(self._path) as uidl:
